@@ -272,7 +272,11 @@ theorem xrefLoop_noReq (rec : Rec) (h : RecNoReq rec) (root : Node) (rs : Bool) 
           split
           · intro he; cases he
           · split
-            · exact ih _ _ _ ps
+            · split
+              · split
+                · intro he; cases he
+                · exact ih _ _ _ ps
+              · exact ih _ _ _ ps
             · exact h _ _ _ _ ps
 
 theorem ecfgLookup_noReq (rec : Rec) (h : RecNoReq rec) (root : Node) (name : String) (st : EvSt) :
